@@ -9,4 +9,10 @@ if ! cmp -s _CoqProject.new _CoqProject || [ ! -f Makefile ]; then
 else
   rm -f _CoqProject.new
 fi
-timeout ${VERIF_COQ_TIMEOUT:-3000} make -j16 2>&1 | grep -v '^COQDEP\|^COQC\|^CAML' | tail -40
+# (the exit status must be make's: a grep that filters every line away exits 1)
+mkdir -p ../build
+set +e
+timeout ${VERIF_COQ_TIMEOUT:-3000} make -j16 > ../build/coq_make.log 2>&1
+rc=$?
+grep -v '^COQDEP\|^COQC\|^CAML' ../build/coq_make.log | tail -40
+exit $rc
